@@ -18,6 +18,7 @@ import (
 	"crypto"
 	"crypto/ecdsa"
 	"crypto/ed25519"
+	"crypto/elliptic"
 	"crypto/rand"
 	"crypto/rsa"
 	"errors"
@@ -48,6 +49,9 @@ func SignPrivateKey(digest []byte, algorithm string, key jwk.Key) (signature []b
 		return signPrivateKeyRSAPSS(digest, getSHAHash(algorithm), key)
 
 	case Algorithm_ES256, Algorithm_ES384, Algorithm_ES512:
+		if err = checkECDSAParams(algorithm, key, true, digest); err != nil {
+			return nil, err
+		}
 		return signPrivateKeyECDSA(digest, key)
 
 	case Algorithm_EdDSA:
@@ -72,6 +76,45 @@ func signPrivateKeyRSAPSS(digest []byte, hash crypto.Hash, key jwk.Key) ([]byte,
 		return nil, ErrKeyTypeMismatch
 	}
 	return rsa.SignPSS(rand.Reader, rsaKey, hash, digest, nil)
+}
+
+// checkECDSAParams ensures that the curve of the key and the length of the digest are those required by the algorithm:
+// ES256 is ECDSA using P-256 and SHA-256, ES384 using P-384 and SHA-384, ES512 using P-521 and SHA-512.
+// Keys that are not ECDSA keys of the required kind (private for signing, public for verifying) are left to the
+// caller, which reports ErrKeyTypeMismatch.
+func checkECDSAParams(algorithm string, key jwk.Key, private bool, digest []byte) error {
+	var expectCurve elliptic.Curve
+	switch algorithm {
+	case Algorithm_ES256:
+		expectCurve = elliptic.P256()
+	case Algorithm_ES384:
+		expectCurve = elliptic.P384()
+	case Algorithm_ES512:
+		expectCurve = elliptic.P521()
+	default:
+		return ErrUnsupportedAlgorithm
+	}
+	var curve elliptic.Curve
+	if private {
+		priv := &ecdsa.PrivateKey{}
+		if key.Raw(priv) != nil {
+			return nil
+		}
+		curve = priv.Curve
+	} else {
+		pub := &ecdsa.PublicKey{}
+		if key.Raw(pub) != nil {
+			return nil
+		}
+		curve = pub.Curve
+	}
+	if curve != expectCurve {
+		return ErrKeyTypeMismatch
+	}
+	if len(digest) != getSHAHash(algorithm).Size() {
+		return errors.New("invalid digest length")
+	}
+	return nil
 }
 
 func signPrivateKeyECDSA(digest []byte, key jwk.Key) ([]byte, error) {
@@ -122,6 +165,9 @@ func VerifyPublicKey(digest []byte, signature []byte, algorithm string, key jwk.
 		return verifyPublicKeyRSAPSS(digest, signature, getSHAHash(algorithm), key)
 
 	case Algorithm_ES256, Algorithm_ES384, Algorithm_ES512:
+		if err = checkECDSAParams(algorithm, key, false, digest); err != nil {
+			return false, err
+		}
 		return verifyPublicKeyECDSA(digest, signature, key)
 
 	case Algorithm_EdDSA:
